@@ -3,6 +3,37 @@ import GqlVerif.Model.Serde
 import GqlVerif.Props.C11
 /-!
 # C09 — options that only affect Rust naming, traits or placement never change the wire
+
+All theorems are about the model's own functions (`Serde.dePath / deFlat / serPath / de / ser / roundtrip`,
+`Codegen.responseForQuery / generatedModule / calc* / enumItem / inputItem / variablesItems / scalarItems /
+renderField / renderType`), for all inputs.
+
+1. `serde_ignores_derives` (+ `de_stripEnv`, `ser_stripEnv`, `roundtrip_stripEnv`, `serde_eq_of_strip_eq`):
+   `stripItem` erases `derives`, `serdeCrate` / `serdePath` and the `pub` flag of aliases; reading and
+   writing with the stripped environment is the same function.
+2. `codegen_neutral_options` (+ `codegen_neutral_same_error`, `generatedModule_neutral`): contexts that agree
+   on schema, query, case functions and on every option except `responseDerives`, `variablesDerives`,
+   `serdePath`, `visibility`, `queryFile`, `mode`, `operationName`, `structIdent` (`NeutralAgree`) generate
+   the same items up to `stripItem`.  Core: `calc_congr`, a congruence of the four mutual `calc*` functions,
+   parametric in a view `f` of the items (used with `stripItem` here and with `id` in 4).
+3. `wire_invariant_derives_serde_visibility` (+ the spelled-out `…'`): hence both modules read and write
+   identically (`WireSame`), with any consumer-supplied `externs`; one is generated iff the other is.
+4. `scalars_module_only_changes_alias_target`, `responseForQuery_withScalarsModule` (IR statement): with
+   `custom_scalars_module` changed the module is assembled from the same parts; only the target path of the
+   custom-scalar aliases moves.  `scalars_module_wire_invariant` (wire statement, from `retarget_wire`): if the
+   consumer supplies the same type at both paths and no flattened member leads to a custom-scalar alias, the
+   two modules read and write identically.  The side conditions are shown satisfiable on a concrete module,
+   and the statement without the flatten side condition is refuted on the same module (the *text* of an
+   `unmodelled` error differs).
+4′. `extern_enums_only_drops_enum_items`: changing `extern_enums` only changes which used enums get a
+   definition; everything else is identical.
+5. wire strings do not depend on the context at all, hence not on the normalization:
+   `enumItem_wire` / `enum_wire_strings_invariant`, `renderField_wire_invariant`, `renderField_flatten_wire`,
+   `inputItem_wire` / `input_wire_strings_invariant`, `variablesItems_wire` /
+   `variables_wire_strings_invariant`, `renderType_wire`.
+
+(Like the other `Props` / `Proofs` files that unfold `dePath`, this module realises `dePath.eq_def` etc.;
+it imports only `Model.*` and `Props.C11`.)
 -/
 namespace GqlVerif
 namespace C09
@@ -371,15 +402,20 @@ theorem ORel.mapM {α β γ} (φ : β → γ) {g g' : α → Outcome β}
     apply ORel.bind (ORel.mapM φ h xs); intro as bs habs
     exact ORel.pure (by simp only [List.map_cons, hab, habs])
 
-/-- everything of the module except the built-in aliases and the custom-scalar aliases -/
-def restItems (c : Ctx) (u : UsedTypes) (op : Nat) : Outcome (List Item) := do
-  let enums ← enumItems c u
+/-- the items of fragments, input objects, variables and the response -/
+def otherItems (c : Ctx) (u : UsedTypes) (op : Nat) : Outcome (List Item) := do
   let frags ← (sortNat u.fragments).mapM (fragmentItems c)
   let inputs ← inputItems c u
   let vars ← variablesItems c op
   let o ← c.q.getOperation op
   let resp ← responseItems c o
-  pure (enums ++ inputs ++ vars ++ frags.flatten ++ resp)
+  pure (inputs ++ vars ++ frags.flatten ++ resp)
+
+/-- everything of the module except the built-in aliases and the custom-scalar aliases -/
+def restItems (c : Ctx) (u : UsedTypes) (op : Nat) : Outcome (List Item) := do
+  let enums ← enumItems c u
+  let others ← otherItems c u op
+  pure (enums ++ others)
 
 theorem responseForQuery_split (c : Ctx) (op : Nat) :
     responseForQuery c op = (do
@@ -387,29 +423,18 @@ theorem responseForQuery_split (c : Ctx) (op : Nat) :
       let scalars ← scalarItems c u
       let rest ← restItems c u op
       pure (builtinAliases ++ scalars ++ rest)) := by
-  unfold responseForQuery restItems
+  unfold responseForQuery restItems otherItems
   simp only [bind_assoc, pure_bind, List.append_assoc]
 
-/-- agreement, up to the view `f`, of the item builders other than `scalarItems` -/
+/-- agreement, up to the view `f`, of the item builders other than `scalarItems` and `enumItems` -/
 structure ItemsAgree (f : Item → Item) (c c' : Ctx) : Prop extends CalcAgree f c c' where
-  externEnums : c'.o.externEnums = c.o.externEnums
-  enum : ∀ e, f (enumItem c e) = f (enumItem c' e)
   input : ∀ i, ORel (fun a b => f a = f b) (inputItem c i) (inputItem c' i)
   vars : ∀ op, ORel (RI f) (variablesItems c op) (variablesItems c' op)
 
-theorem restItems_congr (f : Item → Item) {c c' : Ctx} (H : ItemsAgree f c c') (u : UsedTypes) (op : Nat) :
-    ORel (RI f) (restItems c u op) (restItems c' u op) := by
+theorem otherItems_congr (f : Item → Item) {c c' : Ctx} (H : ItemsAgree f c c') (u : UsedTypes) (op : Nat) :
+    ORel (RI f) (otherItems c u op) (otherItems c' u op) := by
   have hC := calc_congr f H.toCalcAgree
-  unfold restItems
-  have henum : ORel (RI f) (enumItems c u) (enumItems c' u) := by
-    unfold enumItems
-    simp only [H.s, H.externEnums]
-    apply ORel.bind_same; intro es
-    apply ORel.pure
-    simp only [RI, List.map_map]
-    apply List.map_congr_left
-    intro e _
-    exact H.enum e
+  unfold otherItems
   have hfrag : ∀ fid, ORel (fun a b : List Item => a.map f = b.map f) (fragmentItems c fid) (fragmentItems c' fid) := by
     intro fid
     unfold fragmentItems
@@ -425,7 +450,6 @@ theorem restItems_congr (f : Item → Item) {c c' : Ctx} (H : ItemsAgree f c c')
     unfold responseItems
     simp only [H.s, H.q, H.cs]
     exact (hC _).1 _ _ _ _
-  apply ORel.bind henum; intro en en' hen
   apply ORel.bind (ORel.mapM (List.map f) hfrag _); intro fr fr' hfr
   apply ORel.bind hinput; intro inp inp' hinp
   apply ORel.bind (H.vars op); intro vs vs' hvs
@@ -433,7 +457,25 @@ theorem restItems_congr (f : Item → Item) {c c' : Ctx} (H : ItemsAgree f c c')
   apply ORel.bind_same; intro o
   apply ORel.bind (hresp o); intro r r' hr
   apply ORel.pure
-  simp only [RI, List.map_append, List.map_flatten, hen, hfr, hinp, hvs, hr]
+  simp only [RI, List.map_append, List.map_flatten, hfr, hinp, hvs, hr]
+
+theorem restItems_congr (f : Item → Item) {c c' : Ctx} (H : ItemsAgree f c c')
+    (hx : c'.o.externEnums = c.o.externEnums) (henum : ∀ e, f (enumItem c e) = f (enumItem c' e))
+    (u : UsedTypes) (op : Nat) : ORel (RI f) (restItems c u op) (restItems c' u op) := by
+  unfold restItems
+  have henums : ORel (RI f) (enumItems c u) (enumItems c' u) := by
+    unfold enumItems
+    simp only [H.s, hx]
+    apply ORel.bind_same; intro es
+    apply ORel.pure
+    simp only [RI, List.map_map]
+    apply List.map_congr_left
+    intro e _
+    exact henum e
+  apply ORel.bind henums; intro en en' hen
+  apply ORel.bind (otherItems_congr f H u op); intro o o' ho
+  apply ORel.pure
+  simp only [RI, List.map_append, hen, ho]
 
 /-! ### the neutral options -/
 
@@ -488,6 +530,11 @@ theorem scalarItems_congr {c c' : Ctx} (hs : c'.s = c.s) (hcs : c'.cs = c.cs)
   unfold scalarItems
   rw [hs, hcs, hn, hm]
 
+theorem enumItem_strip {c c' : Ctx} (hcs : c'.cs = c.cs) (hn : c'.o.normalization = c.o.normalization)
+    (e : StoredEnum) : stripItem (enumItem c e) = stripItem (enumItem c' e) := by
+  unfold enumItem
+  simp only [hcs, hn, stripItem]
+
 theorem NeutralAgree.itemsAgree {c c' : Ctx} (H : NeutralAgree c c') : ItemsAgree stripItem c c' where
   s := H.s
   q := H.q
@@ -497,11 +544,6 @@ theorem NeutralAgree.itemsAgree {c c' : Ctx} (H : NeutralAgree c c') : ItemsAgre
   deprecation := H.deprecation
   normalization := H.normalization
   render := renderType_strip c c'
-  externEnums := H.externEnums
-  enum := by
-    intro e
-    unfold enumItem
-    simp only [H.cs, H.normalization, stripItem]
   input := by
     intro i
     unfold inputItem
@@ -526,7 +568,8 @@ theorem codegen_neutral_options {c c' : Ctx} (H : NeutralAgree c c') (op : Nat) 
   simp only [H.s, H.q, scalarItems_congr H.s H.cs H.normalization H.scalarsModule]
   apply ORel.bind_same; intro u
   apply ORel.bind_same; intro sc
-  apply ORel.bind (restItems_congr stripItem H.itemsAgree u op); intro r r' hr
+  apply ORel.bind (restItems_congr stripItem H.itemsAgree H.externEnums (enumItem_strip H.cs H.normalization) u op)
+  intro r r' hr
   apply ORel.pure
   simp only [List.map_append, hr]
 
@@ -637,17 +680,60 @@ theorem withScalarsModule_itemsAgree (c : Ctx) (m : Option String) : ItemsAgree 
   deprecation := rfl
   normalization := rfl
   render := fun _ _ _ => rfl
-  externEnums := rfl
-  enum := fun _ => rfl
   input := fun i => ORel.refl (fun _ => rfl) (inputItem c i)
   vars := fun op => ORel.refl (R := RI id) (fun _ => rfl) (variablesItems c op)
 
 theorem restItems_withScalarsModule (c : Ctx) (m : Option String) (u : UsedTypes) (op : Nat) :
     restItems (withScalarsModule c m) u op = restItems c u op := by
-  have h := restItems_congr id (withScalarsModule_itemsAgree c m) u op
+  have h := restItems_congr id (withScalarsModule_itemsAgree c m) rfl (fun _ => rfl) u op
   have h' : ORel Eq (restItems c u op) (restItems (withScalarsModule c m) u op) :=
     ORel.mono (fun a b hab => by simpa only [RI, List.map_id] using hab) h
   exact ((ORel.eq_iff _ _).mp h').symm
+
+/-- the two parts of a module that matter here: the identifiers of the custom scalars in use, and every
+    item other than the built-in aliases and the custom-scalar aliases -/
+def moduleParts (c : Ctx) (op : Nat) : Outcome (List String × List Item) := do
+  let u ← allUsedTypes c.s c.q op
+  let ids ← scalarIdents c u
+  let rest ← restItems c u op
+  pure (ids, rest)
+
+/-- assemble the module from its parts, custom scalars living in module `m` -/
+def assemble (m : Option String) (parts : List String × List Item) : List Item :=
+  builtinAliases ++ parts.1.map (scalarAlias m) ++ parts.2
+
+theorem responseForQuery_parts (c : Ctx) (op : Nat) :
+    responseForQuery c op = (moduleParts c op).map (assemble c.o.scalarsModule) := by
+  rw [responseForQuery_split]
+  unfold moduleParts
+  simp only [scalarItems_eq]
+  generalize allUsedTypes c.s c.q op = U
+  cases U with
+  | error err => rfl
+  | ok u =>
+    show (Except.map _ (scalarIdents c u) >>= _) = Except.map _ (scalarIdents c u >>= _)
+    generalize scalarIdents c u = I
+    cases I with
+    | error err => rfl
+    | ok idents =>
+      show (restItems c u op >>= _) = Except.map _ (restItems c u op >>= _)
+      generalize restItems c u op = R
+      cases R <;> rfl
+
+/-- the parts do not depend on `custom_scalars_module` -/
+theorem moduleParts_withScalarsModule (c : Ctx) (m : Option String) (op : Nat) :
+    moduleParts (withScalarsModule c m) op = moduleParts c op := by
+  unfold moduleParts
+  have hid : ∀ u, scalarIdents (withScalarsModule c m) u = scalarIdents c u := fun _ => rfl
+  simp only [restItems_withScalarsModule, hid]
+  rfl
+
+/-- **4.** (IR statement, functional form) the module generated with `custom_scalars_module = m` is
+    assembled from the *same* parts: only the target `<module>::ident` of the custom-scalar aliases moves -/
+theorem responseForQuery_withScalarsModule (c : Ctx) (m : Option String) (op : Nat) :
+    responseForQuery (withScalarsModule c m) op = (moduleParts c op).map (assemble m) := by
+  rw [responseForQuery_parts, moduleParts_withScalarsModule]
+  rfl
 
 /-- **4.** (IR statement) changing `custom_scalars_module` from its value in `c` to `m`: generation fails
     with the same error, or both modules are `builtinAliases ++ (aliases of the custom scalars) ++ rest`
@@ -658,29 +744,467 @@ theorem scalars_module_only_changes_alias_target (c : Ctx) (m : Option String) (
     (∃ (idents : List String) (rest : List Item),
       responseForQuery c op = .ok (builtinAliases ++ idents.map (scalarAlias c.o.scalarsModule) ++ rest) ∧
       responseForQuery (withScalarsModule c m) op = .ok (builtinAliases ++ idents.map (scalarAlias m) ++ rest)) := by
-  rw [responseForQuery_split, responseForQuery_split]
-  have hs : (withScalarsModule c m).s = c.s := rfl
-  have hq : (withScalarsModule c m).q = c.q := rfl
-  have hm : (withScalarsModule c m).o.scalarsModule = m := rfl
-  have hid : ∀ u, scalarIdents (withScalarsModule c m) u = scalarIdents c u := fun _ => rfl
-  simp only [hs, hq, hm, hid, restItems_withScalarsModule, scalarItems_eq]
-  generalize allUsedTypes c.s c.q op = U
-  cases U with
+  rw [responseForQuery_withScalarsModule, responseForQuery_parts]
+  cases moduleParts c op with
   | error err => exact Or.inl ⟨err, rfl, rfl⟩
-  | ok u =>
-    show (∃ err, (Except.map _ (scalarIdents c u) >>= _) = _ ∧ (Except.map _ (scalarIdents c u) >>= _) = _) ∨
-      ∃ (idents : List String) (rest : List Item),
-        (Except.map _ (scalarIdents c u) >>= _) = _ ∧ (Except.map _ (scalarIdents c u) >>= _) = _
-    generalize scalarIdents c u = I
-    cases I with
-    | error err => exact Or.inl ⟨err, rfl, rfl⟩
-    | ok idents =>
-      show (∃ err, (restItems c u op >>= _) = _ ∧ (restItems c u op >>= _) = _) ∨
-        ∃ (idents : List String) (rest : List Item), (restItems c u op >>= _) = _ ∧ (restItems c u op >>= _) = _
-      generalize restItems c u op = R
-      cases R with
-      | error err => exact Or.inl ⟨err, rfl, rfl⟩
-      | ok rest => exact Or.inr ⟨idents, rest, rfl, rfl⟩
+  | ok parts => exact Or.inr ⟨parts.1, parts.2, rfl, rfl⟩
+
+/-! ### wire behaviour under re-targeted aliases -/
+
+/-- pointwise relation of two lists -/
+inductive All2 {α β} (R : α → β → Prop) : List α → List β → Prop
+  | nil : All2 R [] []
+  | cons {a b as bs} : R a b → All2 R as bs → All2 R (a :: as) (b :: bs)
+
+theorem All2.refl {α} {R : α → α → Prop} (h : ∀ a, R a a) : ∀ l, All2 R l l
+  | [] => .nil
+  | a :: l => .cons (h a) (All2.refl h l)
+
+theorem All2.append {α β} {R : α → β → Prop} : ∀ {l₁ l₁' l₂ l₂'}, All2 R l₁ l₁' → All2 R l₂ l₂' →
+    All2 R (l₁ ++ l₂) (l₁' ++ l₂')
+  | _, _, _, _, .nil, h => h
+  | _, _, _, _, .cons hab t, h => .cons hab (All2.append t h)
+
+theorem All2.length_eq {α β} {R : α → β → Prop} : ∀ {l l'}, All2 R l l' → l.length = l'.length
+  | _, _, .nil => rfl
+  | _, _, .cons _ t => by simp [All2.length_eq t]
+
+theorem All2.map_of {α β γ} {R : β → γ → Prop} (f : α → β) (g : α → γ) :
+    ∀ (l : List α), (∀ a ∈ l, R (f a) (g a)) → All2 R (l.map f) (l.map g)
+  | [], _ => .nil
+  | a :: l, h => .cons (h a (by simp)) (All2.map_of f g l (fun x hx => h x (by simp [hx])))
+
+/-- `it'` is `it`, or both are the alias named `n ∈ N` whose targets are plain paths related by `P` -/
+inductive ItemRetarget (N : List String) (P : String → String → Prop) : Item → Item → Prop
+  | same (it) : ItemRetarget N P it it
+  | alias (n pub p p') : n ∈ N → P p p' → ItemRetarget N P (.alias n pub (.path p)) (.alias n pub (.path p'))
+
+theorem find_retarget {N : List String} {P : String → String → Prop} (q : String) :
+    ∀ {l l' : List Item}, All2 (ItemRetarget N P) l l' →
+      (l.find? (·.name == q) = l'.find? (·.name == q)) ∨
+      (∃ pub p p', q ∈ N ∧ P p p' ∧ l.find? (·.name == q) = some (.alias q pub (.path p)) ∧
+        l'.find? (·.name == q) = some (.alias q pub (.path p')))
+  | _, _, .nil => Or.inl rfl
+  | _, _, .cons (a := a) (b := b) hab t => by
+    cases hab with
+    | same =>
+      cases hq : a.name == q
+      · simp only [List.find?_cons, hq]
+        exact find_retarget q t
+      · simp [hq]
+    | alias n pub p p' hn hp =>
+      by_cases hq : n = q
+      · subst hq
+        exact Or.inr ⟨pub, p, p', hn, hp, by simp [Item.name], by simp [Item.name]⟩
+      · have : ((Item.alias n pub (.path p)).name == q) = false := by simp [Item.name, hq]
+        have h' : ((Item.alias n pub (.path p')).name == q) = false := by simp [Item.name, hq]
+        simp only [List.find?_cons, this, h']
+        exact find_retarget q t
+
+def isPrimName (p : String) : Bool := p == "String" || p == "i64" || p == "f64" || p == "bool"
+
+theorem dePrim_none_of_notPrim {p : String} (h : isPrimName p = false) (j : Json) : dePrim p j = none := by
+  simp only [isPrimName, Bool.or_eq_false_iff] at h
+  simp [dePrim, h.1.1.1, h.1.1.2, h.1.2, h.2]
+
+/-- what the consumer supplies at path `p` -/
+def externTy (xs : List (String × RTy)) (p : String) : Option RTy := (xs.find? (·.1 == p)).map (·.2)
+
+/-- the paths `p` (in `e`) and `p'` (in `e'`) both lead outside the module, to the same consumer type -/
+structure PathEquiv (e e' : Env) (p p' : String) : Prop where
+  notPrim : isPrimName p = false
+  notPrim' : isPrimName p' = false
+  notItem : e.find p = none
+  notItem' : e'.find p' = none
+  sameExtern : ∃ t, externTy e.externs p = some t ∧ externTy e'.externs p' = some t
+
+/-- `deFlat` never looks up a name of `N` when started at this type -/
+def flatSafe (N : List String) : RTy → Bool
+  | .box t => flatSafe N t
+  | .path q => !N.contains q
+  | _ => true
+
+/-- no `#[serde(flatten)]` member and no other alias leads to a name of `N` -/
+def flatSafeItem (N : List String) : Item → Bool
+  | .struct _ _ _ fs => fs.all fun f => !f.flatten || flatSafe N f.ty
+  | .alias n _ t => N.contains n || flatSafe N t
+  | _ => true
+
+theorem deFlatsWith_congr {flat flat' : RTy → Buf → D (Val × Buf)} :
+    ∀ (fields : List RField), (∀ f ∈ fields, f.flatten = true → ∀ buf, flat f.ty buf = flat' f.ty buf) →
+      ∀ buf, deFlatsWith flat fields buf = deFlatsWith flat' fields buf
+  | [], _, _ => rfl
+  | f :: fs, h, buf => by
+    unfold deFlatsWith
+    cases hf : f.flatten
+    · simp only [Bool.not_false, ↓reduceIte]
+      exact deFlatsWith_congr fs (fun g hg => h g (by simp [hg])) buf
+    · simp only [Bool.not_true, Bool.false_eq_true, ↓reduceIte]
+      rw [h f (by simp) hf buf]
+      have := deFlatsWith_congr fs (fun g hg => h g (by simp [hg]))
+      simp only [this]
+
+theorem deStructMapWith_congr (path : String → Json → D Val) {flat flat' : RTy → Buf → D (Val × Buf)}
+    (fields : List RField) (h : ∀ f ∈ fields, f.flatten = true → ∀ buf, flat f.ty buf = flat' f.ty buf)
+    (kvs : List (String × Json)) :
+    deStructMapWith path flat fields kvs = deStructMapWith path flat' fields kvs := by
+  unfold deStructMapWith
+  simp only [deFlatsWith_congr fields h]
+
+theorem deStructWith_congr (path : String → Json → D Val) {flat flat' : RTy → Buf → D (Val × Buf)}
+    (fields : List RField) (h : ∀ f ∈ fields, f.flatten = true → ∀ buf, flat f.ty buf = flat' f.ty buf)
+    (j : Json) : deStructWith path flat fields j = deStructWith path flat' fields j := by
+  unfold deStructWith
+  cases j <;> simp only [deStructMapWith_congr path fields h]
+
+/-- `e'` is `e` with the aliases named in `N` re-targeted to equivalent external paths -/
+structure Retarget (N : List String) (e e' : Env) : Prop where
+  items : All2 (ItemRetarget N (PathEquiv e e')) e.items e'.items
+  externs : e'.externs = e.externs
+  safe : e.items.all (flatSafeItem N) = true
+
+theorem find_mem {e : Env} {q : String} {it : Item} (h : e.find q = some it) : it ∈ e.items ∧ it.name = q := by
+  unfold Env.find at h
+  exact ⟨List.mem_of_find?_eq_some h, by simpa using List.find?_some h⟩
+
+theorem Retarget.struct_safe {N e e'} (H : Retarget N e e') {q n d s fs} (h : e.find q = some (.struct n d s fs)) :
+    ∀ f ∈ fs, f.flatten = true → flatSafe N f.ty = true := by
+  intro f hf hfl
+  have := (List.all_eq_true.mp H.safe) _ (find_mem h).1
+  simp only [flatSafeItem, List.all_eq_true] at this
+  simpa [hfl] using this f hf
+
+theorem Retarget.alias_safe {N e e'} (H : Retarget N e e') {q n pub t} (h : e.find q = some (.alias n pub t))
+    (hq : N.contains q = false) : flatSafe N t = true := by
+  have h1 := (List.all_eq_true.mp H.safe) _ (find_mem h).1
+  have h2 : n = q := (find_mem h).2
+  subst h2
+  have hq' : n ∉ N := by simpa using hq
+  simpa [flatSafeItem, hq'] using h1
+
+theorem retarget_de {N : List String} {e e' : Env} (H : Retarget N e e') : ∀ fuel,
+    (∀ b q j, dePath e b fuel q j = dePath e' b fuel q j) ∧
+    (∀ p p', PathEquiv e e' p p' → ∀ b j, dePath e b fuel p j = dePath e' b fuel p' j) ∧
+    (∀ t, flatSafe N t = true → ∀ buf, deFlat e fuel t buf = deFlat e' fuel t buf) := by
+  intro fuel
+  induction fuel with
+  | zero =>
+    refine ⟨?_, ?_, ?_⟩
+    · intro b q j; unfold dePath; rfl
+    · intro p p' _ b j; unfold dePath; rfl
+    · intro t _ buf; unfold deFlat; rfl
+  | succ n ih =>
+    obtain ⟨ih1, ih2, ih3⟩ := ih
+    have hP : ∀ b, dePath e' b n = dePath e b n := fun b => funext fun q => funext fun j => (ih1 b q j).symm
+    refine ⟨?_, ?_, ?_⟩
+    · intro b q j
+      unfold dePath
+      cases dePrim q j with
+      | some r => rfl
+      | none =>
+        simp only
+        rcases find_retarget q H.items with hsame | ⟨pub, p, p', _, hpp, h1, h2⟩
+        · have hf : e'.find q = e.find q := hsame.symm
+          simp only [hf, H.externs, hP]
+          cases hfind : e.find q with
+          | none => rfl
+          | some it =>
+            cases it with
+            | struct nm d s fs =>
+              exact deStructWith_congr _ fs (fun f hf hfl buf => ih3 f.ty (H.struct_safe hfind f hf hfl) buf) j
+            | _ => rfl
+        · have h1' : e.find q = some (.alias q pub (.path p)) := h1
+          have h2' : e'.find q = some (.alias q pub (.path p')) := h2
+          simp only [h1', h2', deTyWith]
+          exact ih2 p p' hpp b j
+    · intro p p' hpp b j
+      unfold dePath
+      obtain ⟨t, ht, ht'⟩ := hpp.sameExtern
+      simp only [dePrim_none_of_notPrim hpp.notPrim, dePrim_none_of_notPrim hpp.notPrim', hpp.notItem, hpp.notItem']
+      unfold externTy at ht ht'
+      cases hx : e.externs.find? (·.1 == p) with
+      | none => simp [hx] at ht
+      | some kt =>
+        cases hx' : e'.externs.find? (·.1 == p') with
+        | none => simp [hx'] at ht'
+        | some kt' =>
+          simp only [hx, hx', Option.map_some, Option.some.injEq] at ht ht'
+          obtain ⟨k, t1⟩ := kt
+          obtain ⟨k', t2⟩ := kt'
+          simp only at ht ht'
+          subst ht; subst ht'
+          simp only [hP]
+    · intro t ht buf
+      unfold deFlat
+      cases t with
+      | box t => exact ih3 t ht buf
+      | opt t => rfl
+      | vec t => rfl
+      | path q =>
+        have hq : N.contains q = false := by simpa [flatSafe] using ht
+        simp only
+        rcases find_retarget q H.items with hsame | ⟨pub, p, p', hmem, _, _, _⟩
+        · have hf : e'.find q = e.find q := hsame.symm
+          simp only [hf, hP]
+          cases hfind : e.find q with
+          | none => rfl
+          | some it =>
+            cases it with
+            | struct nm d s fs =>
+              simp only
+              split
+              · rw [deStructMapWith_congr _ fs (fun f hf hfl buf => ih3 f.ty (H.struct_safe hfind f hf hfl) buf)]
+              · rfl
+            | alias nm pub t => exact ih3 t (H.alias_safe hfind hq) buf
+            | _ => rfl
+        · simp [hmem] at hq
+
+theorem retarget_ser {N : List String} {e e' : Env} (H : Retarget N e e') : ∀ fuel,
+    (∀ q v, serPath e fuel q v = serPath e' fuel q v) ∧
+    (∀ p p', PathEquiv e e' p p' → ∀ v, serPath e fuel p v = serPath e' fuel p' v) := by
+  intro fuel
+  induction fuel with
+  | zero =>
+    refine ⟨?_, ?_⟩
+    · intro q v; unfold serPath; rfl
+    · intro p p' _ v; unfold serPath; rfl
+  | succ n ih =>
+    obtain ⟨ih1, ih2⟩ := ih
+    have hS : serPath e' n = serPath e n := funext fun q => funext fun v => (ih1 q v).symm
+    refine ⟨?_, ?_⟩
+    · intro q v
+      unfold serPath
+      cases serPrim v with
+      | some r => rfl
+      | none =>
+        simp only
+        rcases find_retarget q H.items with hsame | ⟨pub, p, p', _, hpp, h1, h2⟩
+        · have hf : e'.find q = e.find q := hsame.symm
+          simp only [hf, H.externs, hS]
+        · have h1' : e.find q = some (.alias q pub (.path p)) := h1
+          have h2' : e'.find q = some (.alias q pub (.path p')) := h2
+          simp only [h1', h2', serTyWith]
+          exact ih2 p p' hpp v
+    · intro p p' hpp v
+      unfold serPath
+      obtain ⟨t, ht, ht'⟩ := hpp.sameExtern
+      simp only [hpp.notItem, hpp.notItem']
+      unfold externTy at ht ht'
+      cases hx : e.externs.find? (·.1 == p) with
+      | none => simp [hx] at ht
+      | some kt =>
+        cases hx' : e'.externs.find? (·.1 == p') with
+        | none => simp [hx'] at ht'
+        | some kt' =>
+          simp only [hx, hx', Option.map_some, Option.some.injEq] at ht ht'
+          obtain ⟨k, t1⟩ := kt
+          obtain ⟨k', t2⟩ := kt'
+          simp only at ht ht'
+          subst ht; subst ht'
+          simp only [hS]
+
+/-- **re-targeting aliases to equivalent external paths does not change the wire behaviour** -/
+theorem retarget_wire {N : List String} {e e' : Env} (H : Retarget N e e') :
+    (∀ b fuel q j, dePath e b fuel q j = dePath e' b fuel q j) ∧
+    (∀ fuel q v, serPath e fuel q v = serPath e' fuel q v) ∧
+    (∀ t j, Serde.de e t j = Serde.de e' t j) ∧
+    (∀ t v, Serde.ser e t v = Serde.ser e' t v) ∧
+    (∀ t j, Serde.roundtrip e t j = Serde.roundtrip e' t j) := by
+  have hd : ∀ b fuel, dePath e b fuel = dePath e' b fuel :=
+    fun b fuel => funext fun q => funext fun j => (retarget_de H fuel).1 b q j
+  have hs : ∀ fuel, serPath e fuel = serPath e' fuel :=
+    fun fuel => funext fun q => funext fun v => (retarget_ser H fuel).1 q v
+  have hlen : e'.items.length = e.items.length := (All2.length_eq H.items).symm
+  have hde : ∀ t j, Serde.de e t j = Serde.de e' t j := by
+    intro t j
+    unfold Serde.de deFuel deTy
+    rw [hlen, H.externs, hd]
+  have hser : ∀ t v, Serde.ser e t v = Serde.ser e' t v := by
+    intro t v
+    unfold Serde.ser serTy
+    rw [hlen, H.externs, hs]
+  refine ⟨fun b fuel q j => congrFun (congrFun (hd b fuel) q) j, fun fuel q v => congrFun (congrFun (hs fuel) q) v,
+    hde, hser, ?_⟩
+  intro t j
+  unfold Serde.roundtrip
+  simp only [hde, hser]
+
+/-- the two assemblies of a module are related by `Retarget`, provided each pair of target paths is equivalent -/
+theorem assemble_retarget (m m' : Option String) (parts : List String × List Item) (externs : List (String × RTy))
+    (hpath : ∀ i ∈ parts.1,
+      PathEquiv { items := assemble m parts, externs := externs } { items := assemble m' parts, externs := externs }
+        (m.getD "super" ++ "::" ++ i) (m'.getD "super" ++ "::" ++ i))
+    (hsafe : (assemble m parts).all (flatSafeItem parts.1) = true) :
+    Retarget parts.1 { items := assemble m parts, externs := externs }
+      { items := assemble m' parts, externs := externs } where
+  items :=
+    All2.append (All2.append (All2.refl (fun it => .same it) _)
+        (All2.map_of _ _ _ (fun i hi => .alias i false _ _ hi (hpath i hi))))
+      (All2.refl (fun it => .same it) _)
+  externs := rfl
+  safe := hsafe
+
+/-- **4.** (wire statement) let the module generated under `c` have the parts `(idents, rest)`.  With
+    `custom_scalars_module` changed to `m`, and the same consumer-supplied `externs`: if for every custom
+    scalar the two paths `<old>::ident` / `<m>::ident` are equivalent (not primitive names, not item names,
+    `externs` supplies the same type at both) and no flattened member or other alias leads to a custom-scalar
+    alias, the two modules read and write identically. -/
+theorem scalars_module_wire_invariant (c : Ctx) (m : Option String) (op : Nat) (parts : List String × List Item)
+    (hparts : moduleParts c op = .ok parts) (externs : List (String × RTy)) :
+    let e : Env := { items := assemble c.o.scalarsModule parts, externs := externs }
+    let e' : Env := { items := assemble m parts, externs := externs }
+    responseForQuery c op = .ok e.items ∧ responseForQuery (withScalarsModule c m) op = .ok e'.items ∧
+    ((∀ i ∈ parts.1, PathEquiv e e' (c.o.scalarsModule.getD "super" ++ "::" ++ i) (m.getD "super" ++ "::" ++ i)) →
+     e.items.all (flatSafeItem parts.1) = true →
+      (∀ b fuel q j, dePath e b fuel q j = dePath e' b fuel q j) ∧
+      (∀ fuel q v, serPath e fuel q v = serPath e' fuel q v) ∧
+      (∀ t j, Serde.de e t j = Serde.de e' t j) ∧
+      (∀ t v, Serde.ser e t v = Serde.ser e' t v) ∧
+      (∀ t j, Serde.roundtrip e t j = Serde.roundtrip e' t j)) := by
+  intro e e'
+  refine ⟨?_, ?_, fun hpath hsafe => retarget_wire (assemble_retarget _ _ parts externs hpath hsafe)⟩
+  · rw [responseForQuery_parts, hparts]; rfl
+  · rw [responseForQuery_withScalarsModule, hparts]; rfl
+
+/-! ### the side conditions in a concrete instance -/
+
+/-- the parts of the module for `query Q { at ...Frag } fragment Frag on Query { id }` over a schema with a
+    custom scalar `DateTime` (`at : DateTime!`, `id : ID`), as computed by `moduleParts` -/
+def exParts : List String × List Item :=
+  (["DateTime"],
+   [.unitStruct "Variables" ["Serialize"] (some "::serde"),
+    .struct "Frag" ["Deserialize"] (some "::serde")
+      [{ rust := "id", ty := .opt (.path "ID"),
+         deserWith := some "graphql_client::serde_with::deserialize_option_id", default := true }],
+    .struct "ResponseData" ["Deserialize"] (some "::serde")
+      [{ rust := "at", ty := .path "DateTime" }, { rust := "Frag", ty := .path "Frag", flatten := true }]])
+
+def exExterns : List (String × RTy) :=
+  [("super::DateTime", .path "String"), ("crate::scalars::DateTime", .path "String")]
+
+example :
+    let e : Env := { items := assemble none exParts, externs := exExterns }
+    let e' : Env := { items := assemble (some "crate::scalars") exParts, externs := exExterns }
+    (∀ i ∈ exParts.1, PathEquiv e e' ((none : Option String).getD "super" ++ "::" ++ i)
+        ((some "crate::scalars").getD "super" ++ "::" ++ i)) ∧
+    e.items.all (flatSafeItem exParts.1) = true := by
+  intro e e'
+  refine ⟨?_, by decide⟩
+  intro i hi
+  have : i = "DateTime" := by simpa [exParts] using hi
+  subst this
+  exact ⟨by decide, by decide, by decide, by decide, ⟨.path "String", by decide, by decide⟩⟩
+
+example : ∀ t j, Serde.de { items := assemble none exParts, externs := exExterns } t j =
+    Serde.de { items := assemble (some "crate::scalars") exParts, externs := exExterns } t j :=
+  (retarget_wire (assemble_retarget none (some "crate::scalars") exParts exExterns
+    (by
+      intro i hi
+      have : i = "DateTime" := by simpa [exParts] using hi
+      subst this
+      exact ⟨by decide, by decide, by decide, by decide, ⟨.path "String", by decide, by decide⟩⟩)
+    (by decide))).2.2.1
+
+theorem deFlat_alias_extern (e : Env) (q p : String) (pub : Bool) (h1 : e.find q = some (.alias q pub (.path p)))
+    (h2 : e.find p = none) (buf : Buf) : deFlat e 2 (.path q) buf = unmodelled ("flatten of " ++ p) := by
+  unfold deFlat; simp only [h1]; unfold deFlat; simp only [h2]
+
+/-- without the flatten-safety side condition the statement is false as written, though only in the *text* of
+    an `unmodelled` error: flattening a custom-scalar alias (nothing the generator emits, nothing serde
+    supports) reports the target path -/
+example :
+    deFlat { items := assemble none exParts, externs := exExterns } 2 (.path "DateTime") [] ≠
+    deFlat { items := assemble (some "crate::scalars") exParts, externs := exExterns } 2 (.path "DateTime") [] := by
+  rw [deFlat_alias_extern _ "DateTime" "super::DateTime" false (by rfl) (by decide),
+      deFlat_alias_extern _ "DateTime" "crate::scalars::DateTime" false (by rfl) (by decide)]
+  intro h
+  simp only [unmodelled, Except.error.injEq, DErr.unmodelled.injEq] at h
+  exact absurd h (by decide)
+
+/-! ## 4′. `extern_enums` only drops the definitions of the listed enums -/
+
+/-- the same context with another `extern_enums` list -/
+def withExternEnums (c : Ctx) (xs : List String) : Ctx := { c with o := { c.o with externEnums := xs } }
+
+/-- the enums in use (does not read `externEnums`) -/
+def usedEnums (c : Ctx) (u : UsedTypes) : Outcome (List StoredEnum) :=
+  (sortNat (u.types.filterMap TypeId.asEnum?)).mapM c.s.getEnum
+
+/-- the enum definitions emitted when the enums named in `xs` are defined by the consumer -/
+def enumItemsFor (c : Ctx) (xs : List String) (es : List StoredEnum) : List Item :=
+  (es.filter (fun e => !xs.contains e.name)).map (enumItem c)
+
+theorem map_bind' {α β γ} (f : β → γ) (x : Outcome α) (g : α → Outcome β) :
+    Except.map f (x >>= g) = x >>= fun a => Except.map f (g a) := by cases x <;> rfl
+
+theorem bind_map' {α β γ} (f : α → β) (x : Outcome α) (g : β → Outcome γ) :
+    Except.map f x >>= g = x >>= fun a => g (f a) := by cases x <;> rfl
+
+theorem map_pure' {α β} (f : α → β) (a : α) : Except.map f (pure a : Outcome α) = pure (f a) := rfl
+
+theorem enumItems_eq (c : Ctx) (u : UsedTypes) :
+    enumItems c u = (usedEnums c u).map (enumItemsFor c c.o.externEnums) := by
+  unfold enumItems usedEnums enumItemsFor
+  simp only []
+  generalize (sortNat (u.types.filterMap TypeId.asEnum?)).mapM c.s.getEnum = r
+  cases r <;> rfl
+
+/-- (built-in and custom-scalar aliases, enums in use, all other items) -/
+def moduleParts3 (c : Ctx) (op : Nat) : Outcome (List Item × List StoredEnum × List Item) := do
+  let u ← allUsedTypes c.s c.q op
+  let scalars ← scalarItems c u
+  let es ← usedEnums c u
+  let others ← otherItems c u op
+  pure (builtinAliases ++ scalars, es, others)
+
+theorem responseForQuery_parts3 (c : Ctx) (op : Nat) :
+    responseForQuery c op =
+      (moduleParts3 c op).map (fun p => p.1 ++ enumItemsFor c c.o.externEnums p.2.1 ++ p.2.2) := by
+  rw [responseForQuery_split]
+  unfold restItems moduleParts3
+  simp only [enumItems_eq, map_bind', map_pure', bind_map', bind_assoc, pure_bind, List.append_assoc]
+
+theorem withExternEnums_itemsAgree (c : Ctx) (xs : List String) : ItemsAgree id c (withExternEnums c xs) where
+  s := rfl
+  q := rfl
+  cs := rfl
+  otherVariant := rfl
+  skipNone := rfl
+  deprecation := rfl
+  normalization := rfl
+  render := fun _ _ _ => rfl
+  input := fun i => ORel.refl (fun _ => rfl) (inputItem c i)
+  vars := fun op => ORel.refl (R := RI id) (fun _ => rfl) (variablesItems c op)
+
+theorem moduleParts3_withExternEnums (c : Ctx) (xs : List String) (op : Nat) :
+    moduleParts3 (withExternEnums c xs) op = moduleParts3 c op := by
+  have ho : ∀ u, otherItems (withExternEnums c xs) u op = otherItems c u op := by
+    intro u
+    have h := otherItems_congr id (withExternEnums_itemsAgree c xs) u op
+    have h' : ORel Eq (otherItems c u op) (otherItems (withExternEnums c xs) u op) :=
+      ORel.mono (fun a b hab => by simpa only [RI, List.map_id] using hab) h
+    exact ((ORel.eq_iff _ _).mp h').symm
+  unfold moduleParts3
+  have hsc : ∀ u, scalarItems (withExternEnums c xs) u = scalarItems c u := fun _ => rfl
+  have hue : ∀ u, usedEnums (withExternEnums c xs) u = usedEnums c u := fun _ => rfl
+  simp only [ho, hsc, hue]
+  rfl
+
+/-- **`extern_enums`** (IR statement): with the list changed to `xs` the module is built from the *same*
+    parts; the only difference is which of the used enums get a definition (`enumItemsFor`) — the
+    definitions that remain, every struct that mentions an enum, and all other items are identical -/
+theorem extern_enums_only_drops_enum_items (c : Ctx) (xs : List String) (op : Nat) :
+    (∃ err, responseForQuery c op = .error err ∧ responseForQuery (withExternEnums c xs) op = .error err) ∨
+    (∃ (pre : List Item) (es : List StoredEnum) (others : List Item),
+      responseForQuery c op = .ok (pre ++ enumItemsFor c c.o.externEnums es ++ others) ∧
+      responseForQuery (withExternEnums c xs) op = .ok (pre ++ enumItemsFor c xs es ++ others)) := by
+  have h2 : responseForQuery (withExternEnums c xs) op =
+      (moduleParts3 c op).map (fun p => p.1 ++ enumItemsFor c xs p.2.1 ++ p.2.2) := by
+    rw [responseForQuery_parts3, moduleParts3_withExternEnums]; rfl
+  rw [h2, responseForQuery_parts3]
+  cases moduleParts3 c op with
+  | error err => exact Or.inl ⟨err, rfl, rfl⟩
+  | ok parts => exact Or.inr ⟨parts.1, parts.2.1, parts.2.2, rfl, rfl⟩
 
 /-! ## 5. normalization changes Rust names, never wire strings -/
 
